@@ -6,7 +6,7 @@ from .classify import classify
 from .gen import Gen
 from .monitors import Ctx, tree_structure
 from .ops import Interp, Skip
-from .universe import Universe
+from .universe import Universe, kind_of
 
 
 CURRENT_CASE = None
@@ -75,7 +75,7 @@ def swarm_config(profile, streams):
 
 
 def run_session(prop, run_seed, profile, monitors, ops=None, known=None, own_tree=False,
-                prelude=None, finale=None, config=None):
+                prelude=None, finale=None, config=None, leave_out=None, keep_snapshots=False):
     """One simulated run.  ops=None: generate (seeded, state-directed); otherwise replay
     the given op list.  Returns a Result whose case replays the run exactly."""
     streams = seeds.Streams(run_seed)
@@ -106,6 +106,11 @@ def run_session(prop, run_seed, profile, monitors, ops=None, known=None, own_tre
             except Skip as exc:
                 res.stats["skipped"] += 1
                 res.log.append(jdump({"step": step, "op": op, "skip": str(exc)}))
+                continue
+            if leave_out is not None and step in leave_out:
+                # differential replay: this step is left out (it edits a copy only)
+                res.log.append(jdump({"step": step, "op": op, "left_out": True}))
+                res.extra.setdefault("snapshots", []).append(None)
                 continue
             labels = classify(op, args, U)
             if known is not None and known.quarantined(op["op"], labels):
@@ -147,6 +152,17 @@ def run_session(prop, run_seed, profile, monitors, ops=None, known=None, own_tre
                 "outcome": [outcome[0], outcome[1]] if outcome[0] == "exc" else ["ret", outcome[1]],
                 "state": seeds.H("snap", jdump(post).replace(env.sandbox, "$SANDBOX"))
                 if post is not None else "corrupt"}))
+            if keep_snapshots:
+                res.extra.setdefault("snapshots", []).append(post)
+                res.extra.setdefault("steps_info", []).append(
+                    {"step": step, "op": op["op"], "outcome": outcome[0],
+                     "arg_idx": sorted(set(i for i in (U.index(v) for v in args.values()
+                                                       if kind_of(v) != "other") if i is not None)),
+                     "new": (outcome[1] or {}).get("new") if outcome[0] == "ret" and
+                     isinstance(outcome[1], dict) else None,
+                     "again": (outcome[1] or {}).get("again") if outcome[0] == "ret" and
+                     isinstance(outcome[1], dict) else None,
+                     "n_pre": len(pre["objs"])})
             ctx = Ctx(op=op, args=args, labels=labels, outcome=outcome, pre=pre, post=post,
                       U=U, env=env, mem=mem, step=step)
             if guard is not None and not own_tree:
